@@ -1,9 +1,309 @@
-(* C11 - real helpers (src/math.c fallback bodies).  Model: C11/MathDefs.v; proofs: C11/MathProofs.v. *)
-From Coq Require Import Reals List.
-From LibaV Require Import Common.NumOps Common.ROps C11.MathDefs C11.MathProofs.
+(* C11 - Real special functions and reductions are accurate in every configuration (src/math.c, include/a/math.h).
+
+   Model: C11/MathDefs.v - the FALLBACK bodies (every A_HAVE_* switch off) of a_real_asinh/acosh/atanh/expm1/log1p/atan2,
+   a_real_norm2/norm3/norm/norm_, the polar/spherical conversions, and list models of sum/mean/dot/copy/swap/fill/zero/
+   push/roll, written once over NumOps.  Proofs: C11/HypProofs.v, GeomProofs.v, Expm1Proofs.v, ListProofs.v, RangeProofs.v,
+   Defined.v, collected per function family in C11/Clauses.v; non-vacuity: C11/Examples.v.
+
+   THE FULL STATEMENT of the property's first sentence is about binary64/binary32 results:
+       for every finite argument x in the domain, |a_real_f(x) - f(x)| <= K * eps * |f(x)|  in both configurations.
+   What is PROVED here is its exact-arithmetic half, for all real arguments (instance R_ops): the formula each fallback body
+   evaluates IS the mathematical function (identity on the middle ranges, a proved method-error bound <= 2^-53 relative
+   on the outer ranges and for the expm1 rational approximation), no division by zero / sqrt or log outside the domain is
+   executed (the *_defined theorems), and the norms' scaled intermediates lie in [0,1] / [1,n].  The rounding error of the
+   float evaluation is NOT proved: it is measured on samples against mpmath by checks/C11.py (tie 2).  The theorems that
+   stand for a float-accuracy clause are therefore named ..._partial.  The list-helper clauses (second sentence of the
+   property) are proved in full: they hold for every cell type, hence for the floats themselves. *)
+From Coq Require Import Reals List ZArith Bool Arith.
+From LibaV Require Import Common.NumOps Common.ROps C11.MathDefs
+  C11.HypProofs C11.GeomProofs C11.Expm1Proofs C11.ListProofs C11.RangeProofs C11.Defined C11.Clauses C11.Examples.
 Import ListNotations.
 Local Open Scope R_scope.
+Local Notation sqrt := R_sqrt.sqrt.
 
-Theorem C11_log1p_compensation_neutral : forall x, real_log1p R_ops x = ln (1 + x).
+(* ================================================================ log1p *)
+(* the volatile compensation term -(b - x)/a is neutral in exact arithmetic: the body computes ln(1+x) *)
+Theorem C11_log1p_formula_partial : forall x, real_log1p R_ops x = ln (1 + x).
 Proof. exact log1p_neutral. Qed.
-Print Assumptions C11_log1p_compensation_neutral.
+Print Assumptions C11_log1p_formula_partial.
+
+(* ================================================================ asinh: four ranges of |x| split at 2^26, 2, 2^-26
+   (1) middle ranges (log and log1p forms): exactly arcsinh (Coq's Reals: ln (x + sqrt (x^2+1)));
+   (2) |x| > 2^26: log|x| + LN2, method error (incl. the double constant LN2) below 2^-53 where |arcsinh x| > 18;
+   (3) |x| <= 2^-26: x itself, relative method error <= 2^-52/6;
+   (4) all ranges at once and hence across every split point: relative method error <= 2^-53 for EVERY real x *)
+Theorem C11_asinh_partial :
+  (forall x, / 67108864 < Rabs x <= 67108864 -> real_asinh R_ops x = arcsinh x) /\
+  (forall x, 67108864 < Rabs x -> Rabs (real_asinh R_ops x - arcsinh x) <= / 9007199254740992) /\
+  (forall x, Rabs x <= / 67108864 -> real_asinh R_ops x = x /\ Rabs (x - arcsinh x) <= Rabs x * / 27021597764222976) /\
+  (forall x, Rabs (real_asinh R_ops x - arcsinh x) <= / 9007199254740992 * Rabs (arcsinh x)).
+Proof. exact clause_asinh. Qed.
+Print Assumptions C11_asinh_partial.
+
+(* ================================================================ acosh: ranges split at 2^26, 2, 1
+   arccosh x := ln (x + sqrt (x^2 - 1)); (1) it is THE inverse of cosh on [1, oo); (2) exact on [1, 2^26] (log1p form,
+   log form, and the point 1); (3) x > 2^26: log x + LN2, method error below 2^-51 where arccosh x > 18;
+   (4) relative method error <= 2^-53 on the whole domain *)
+Theorem C11_acosh_partial :
+  (forall x, 1 <= x -> cosh (arccosh x) = x /\ 0 <= arccosh x) /\
+  (forall x, 1 <= x <= 67108864 -> real_acosh R_ops x = arccosh x) /\
+  (forall x, 67108864 < x -> Rabs (real_acosh R_ops x - arccosh x) <= / 2251799813685248) /\
+  (forall x, 1 <= x -> Rabs (real_acosh R_ops x - arccosh x) <= / 9007199254740992 * Rabs (arccosh x)).
+Proof. exact clause_acosh. Qed.
+Print Assumptions C11_acosh_partial.
+
+(* ================================================================ atanh: ranges split at 1/2 and 2^-52
+   arctanh x := 1/2 ln ((1+x)/(1-x)); (1) THE inverse of tanh on (-1,1); (2) exact for 2^-52 < |x| < 1 (both log1p
+   forms); (3) |x| <= 2^-52: x itself, relative method error <= 2^-104; (4) the whole open interval *)
+Theorem C11_atanh_partial :
+  (forall x, -1 < x < 1 -> tanh (arctanh x) = x) /\
+  (forall x, / 4503599627370496 < Rabs x < 1 -> real_atanh R_ops x = arctanh x) /\
+  (forall x, Rabs x <= / 4503599627370496 ->
+     real_atanh R_ops x = x /\ Rabs (x - arctanh x) <= Rabs x * / 20282409603651670423947251286016) /\
+  (forall x, Rabs x < 1 -> Rabs (real_atanh R_ops x - arctanh x) <= / 9007199254740992 * Rabs (arctanh x)).
+Proof. exact clause_atanh. Qed.
+Print Assumptions C11_atanh_partial.
+
+(* ================================================================ expm1
+   (1) which formula is used where; (2) the rational approximation x (2P/(Q - xP)) on [-1/2,1/2], coefficients as the
+   compiler rounds them to binary64: absolute method error <= 1e-18 (interval arithmetic with Taylor models);
+   (3) RELATIVE method error <= 2^-53 on the whole interval, including the sliver around 0 (shape argument + mean
+   value theorem); (4) the complete function, every real x; (5) definedness: the divisor Q(x^2) - x P(x^2) is >= 1;
+   (6) hence no poisoned operation is executed (see the definedness section below for Rp_ops) *)
+Theorem C11_expm1_partial :
+  (forall x, (x < -1/2 \/ 1/2 < x -> real_expm1 R_ops x = exp x - 1) /\
+             (-1/2 <= x <= 1/2 -> real_expm1 R_ops x = expm1_rat R_ops x)) /\
+  (forall x, -1/2 <= x <= 1/2 -> Rabs (expm1_rat R_ops x - (exp x - 1)) <= 1 / 1000000000000000000) /\
+  (forall x, -1/2 <= x <= 1/2 -> Rabs (expm1_rat R_ops x - (exp x - 1)) <= / 9007199254740992 * Rabs (exp x - 1)) /\
+  (forall x, Rabs (real_expm1 R_ops x - (exp x - 1)) <= / 9007199254740992 * Rabs (exp x - 1)) /\
+  (forall x, -1/2 <= x <= 1/2 -> 1 <= polevl R_ops (expm1_Q R_ops) (x * x) - polevl R_ops (expm1_P R_ops) (x * x) * x) /\
+  (forall p x, real_expm1 (Rp_ops p) x = real_expm1 R_ops x).
+Proof. exact clause_expm1. Qed.
+Print Assumptions C11_expm1_partial.
+
+(* ================================================================ atan2: all quadrants, all four half-axes, origin
+   polar_angle x y t :=  -PI < t <= PI /\ x = r cos t /\ y = r sin t  with r = sqrt (x^2+y^2).
+   (1) away from the origin the result is THE polar angle up to the distance of the double constant A_REAL_PI from pi
+   (exactly the angle in the right half plane); (2) that distance is <= 2^-52 and A_REAL_PI_2 is half of A_REAL_PI;
+   (3) atan2(0,0) = 0; (4) the result itself never leaves (-PI, PI] (the constant is below pi) *)
+Theorem C11_atan2_partial :
+  (forall x y, x <> 0 \/ y <> 0 ->
+     exists theta, polar_angle x y theta /\ Rabs (real_atan2 R_ops y x - theta) <= Rabs (c_pi R_ops - PI)) /\
+  (Rabs (c_pi R_ops - PI) <= / 4503599627370496 /\ c_pi_2 R_ops = c_pi R_ops / 2) /\
+  real_atan2 R_ops 0 0 = 0 /\
+  (forall x y, - PI < real_atan2 R_ops y x <= PI).
+Proof. exact clause_atan2. Qed.
+Print Assumptions C11_atan2_partial.
+(* the body found in the repository before fix 4df114e (+-PI on the y axis) is not the polar angle: at (0,1) the angle is
+   PI/2 <= 2 and the body returned more than 3 *)
+Theorem C11_atan2_unpatched_refuted :
+  exists x y theta, polar_angle x y theta /\ theta <= 2 /\ 3 < real_atan2_unpatched R_ops y x.
+Proof. exact clause_atan2_unpatched. Qed.
+Print Assumptions C11_atan2_unpatched_refuted.
+
+(* ================================================================ Euclidean norms *)
+Theorem C11_norm2_norm3_partial :
+  (forall x y, real_norm2 R_ops x y = sqrt (x * x + y * y)) /\
+  (forall x y z, real_norm3 R_ops x y z = sqrt (x * x + y * y + z * z)).
+Proof. exact clause_norm23. Qed.
+Print Assumptions C11_norm2_norm3_partial.
+(* (1) n components with stride c >= 1: sqrt of the sum of squares of exactly the cells p[0], p[c], ..; out of bounds is an
+   error; a_real_norm is the stride-1 case; (2) stride 0 returns 0 (both loops are empty); (3) on the visited cells:
+   the zero vector (largest magnitude 0) returns 0 without dividing, otherwise the scaled form, always sqrt(sum of squares) *)
+Theorem C11_norm_strided_partial :
+  (forall (n : nat) (p : list R) (c : nat), (1 <= c)%nat ->
+     (in_bounds n p 0 c -> real_norm_ R_ops n p c = Some (sqrt (sumsq (cells 0 n p 0 c)))) /\
+     (~ in_bounds n p 0 c -> real_norm_ R_ops n p c = None) /\
+     real_norm R_ops n p = real_norm_ R_ops n p 1) /\
+  (forall (n : nat) (p : list R), real_norm_ R_ops n p 0 = Some 0) /\
+  (forall (l : list R), let w := maxabs l 0 in
+     (w <= 0 -> norm_cells R_ops l = 0 /\ sumsq l = 0) /\
+     (0 < w -> norm_cells R_ops l = sqrt (fold_left (fun s p => s + p / w * (p / w)) l 0) * w) /\
+     norm_cells R_ops l = sqrt (sumsq l)).
+Proof. exact clause_norm. Qed.
+Print Assumptions C11_norm_strided_partial.
+(* "no overflow or underflow when the true result is representable", as a statement about the intermediates the scaling
+   produces (exact arithmetic): with m the largest magnitude, every quotient is in [0,1] (resp. [-1,1]), the radicand in
+   [1,2], [1,3], [1,n], the result in [m, sqrt2 m], [m, sqrt3 m], [m, sqrt n m]; so the only operation that can leave the
+   float range is the final multiplication, and only if the true norm does.  PARTIAL: that the rounded operations keep
+   these bounds is not proved (sampled 1e-300..1e300 in tie 2); squares of quotients below 2^-537 do underflow, harmlessly
+   (they are added to a sum >= 1). *)
+Theorem C11_norm_scaling_partial :
+  (forall x y, let m := Rmax (Rabs x) (Rabs y) in let q := Rmin (Rabs x) (Rabs y) / m in
+     0 < m -> 0 <= q <= 1 /\ 1 <= q * q + 1 <= 2 /\ real_norm2 R_ops x y = sqrt (q * q + 1) * m /\
+              m <= real_norm2 R_ops x y <= sqrt 2 * m) /\
+  (forall x y z, let m := Rmax (Rmax (Rabs x) (Rabs y)) (Rabs z) in
+     0 < m -> exists q1 q2, 0 <= q1 <= 1 /\ 0 <= q2 <= 1 /\ 1 <= q1 * q1 + q2 * q2 + 1 <= 3 /\
+              real_norm3 R_ops x y z = sqrt (q1 * q1 + q2 * q2 + 1) * m /\ m <= real_norm3 R_ops x y z <= sqrt 3 * m) /\
+  (forall (l : list R), let w := maxabs l 0 in 0 < w ->
+     List.Forall (fun p => -1 <= p / w <= 1) l /\
+     1 <= fold_left (fun s p => s + p / w * (p / w)) l 0 <= INR (length l) /\
+     norm_cells R_ops l = sqrt (fold_left (fun s p => s + p / w * (p / w)) l 0) * w /\
+     w <= norm_cells R_ops l <= sqrt (INR (length l)) * w).
+Proof. exact clause_norm_scaling. Qed.
+Print Assumptions C11_norm_scaling_partial.
+
+(* ================================================================ polar / spherical conversions (fallback hypot = norm2) *)
+(* (1) cart2pol = (radius, atan2); (2) pol2cart inverts it when fed the exact polar angle; (3) pol2cart lands on the
+   circle of radius |rho|; (4) round trip: some exact polar angle theta of (x,y) is within |A_REAL_PI - pi| of the
+   angle cart2pol returns, and pol2cart (radius, theta) is the point *)
+Theorem C11_cart2pol_pol2cart_partial :
+  (forall x y, fst (real_cart2pol R_ops x y) = sqrt (x * x + y * y) /\ snd (real_cart2pol R_ops x y) = real_atan2 R_ops y x) /\
+  (forall x y theta, polar_angle x y theta -> real_pol2cart R_ops (sqrt (x * x + y * y)) theta = (x, y)) /\
+  (forall rho theta, let p := real_pol2cart R_ops rho theta in fst p * fst p + snd p * snd p = rho * rho) /\
+  (forall x y, x <> 0 \/ y <> 0 ->
+     exists theta, polar_angle x y theta /\ real_pol2cart R_ops (fst (real_cart2pol R_ops x y)) theta = (x, y) /\
+                   Rabs (snd (real_cart2pol R_ops x y) - theta) <= Rabs (c_pi R_ops - PI)).
+Proof. exact clause_polar. Qed.
+Print Assumptions C11_cart2pol_pol2cart_partial.
+(* (1) cart2sph = (radius, azimuth atan2(y,x), elevation atan2(z, sqrt(x^2+y^2))); (2) sph2cart inverts it when fed the
+   exact angles; (3) sph2cart lands on the sphere of radius |rho| *)
+Theorem C11_cart2sph_sph2cart_partial :
+  (forall x y z, let r := sqrt (x * x + y * y) in
+     real_cart2sph R_ops x y z = (sqrt (x * x + y * y + z * z), real_atan2 R_ops y x, real_atan2 R_ops z r)) /\
+  (forall x y z theta alpha, let r := sqrt (x * x + y * y) in
+     polar_angle x y theta -> polar_angle r z alpha ->
+     real_sph2cart R_ops (sqrt (x * x + y * y + z * z)) theta alpha = (x, y, z)) /\
+  (forall rho theta alpha, let '(x, y, z) := real_sph2cart R_ops rho theta alpha in x * x + y * y + z * z = rho * rho).
+Proof. exact clause_spherical. Qed.
+Print Assumptions C11_cart2sph_sph2cart_partial.
+
+(* ================================================================ definedness (DESIGN 3): Rp_ops p is the real instance in
+   which division by zero, sqrt of a negative number and log of a non-positive number return an arbitrary poison value p.
+   (1), (2): every function returns what it returns over R_ops, for EVERY p, on the property's domain: none of those
+   operations is executed (or its value is never used; expm1: see C11_expm1_partial).  (3): outside the domain the C returns
+   NaN / +-inf on purpose - these are exactly the branches that do divide by zero (A_REAL_INF, A_REAL_NAN = 0 * inf). *)
+Theorem C11_defined : forall p,
+  ((forall x, -1 < x -> real_log1p (Rp_ops p) x = real_log1p R_ops x) /\
+   (forall x, real_asinh (Rp_ops p) x = real_asinh R_ops x) /\
+   (forall x, 1 <= x -> real_acosh (Rp_ops p) x = real_acosh R_ops x) /\
+   (forall x, -1 < x < 1 -> real_atanh (Rp_ops p) x = real_atanh R_ops x) /\
+   (forall y x, real_atan2 (Rp_ops p) y x = real_atan2 R_ops y x)) /\
+  ((forall x y, real_norm2 (Rp_ops p) x y = real_norm2 R_ops x y) /\
+   (forall x y z, real_norm3 (Rp_ops p) x y z = real_norm3 R_ops x y z) /\
+   (forall n l c, real_norm_ (Rp_ops p) n l c = real_norm_ R_ops n l c /\ real_norm (Rp_ops p) n l = real_norm R_ops n l) /\
+   (forall n l c, real_mean_ (Rp_ops p) n l c = real_mean_ R_ops n l c) /\
+   (forall x y, real_cart2pol (Rp_ops p) x y = real_cart2pol R_ops x y) /\
+   (forall x y z, real_cart2sph (Rp_ops p) x y z = real_cart2sph R_ops x y z) /\
+   (forall r t, real_pol2cart (Rp_ops p) r t = real_pol2cart R_ops r t) /\
+   (forall r t a, real_sph2cart (Rp_ops p) r t a = real_sph2cart R_ops r t a)) /\
+  (real_acosh (Rp_ops p) (1 / 2) = c_nan (Rp_ops p) /\ real_atanh (Rp_ops p) 2 = c_nan (Rp_ops p) /\
+   real_atanh (Rp_ops p) 1 = c_inf (Rp_ops p) /\ real_atanh (Rp_ops p) (-1) = - c_inf (Rp_ops p) /\ c_inf (Rp_ops p) = p).
+Proof. exact clause_defined. Qed.
+Print Assumptions C11_defined.
+
+(* ================================================================ reductions: every length n, every stride c (also 0)
+   in_bounds n p i c := n = 0 \/ i + (n-1) c < length p;  cells d n p i c := [p[i]; p[i+c]; ...; p[i+(n-1)c]];
+   rsum = fold_right Rplus 0.  (Over R the order of summation is immaterial; the ORDER the C uses is what the bit-exact
+   tie compares.) *)
+Theorem C11_sums_and_mean :
+  (forall (n : nat) (p : list R) (c : nat), in_bounds n p 0 c -> real_sum_ R_ops n p c = Some (rsum (cells 0 n p 0 c))) /\
+  (forall (n : nat) (p : list R) (c : nat), in_bounds n p 0 c -> real_sum1_ R_ops n p c = Some (rsum (map Rabs (cells 0 n p 0 c)))) /\
+  (forall (n : nat) (p : list R) (c : nat), in_bounds n p 0 c ->
+     real_sum2_ R_ops n p c = Some (rsum (map (fun v => v * v) (cells 0 n p 0 c)))) /\
+  (forall (n : nat) (p : list R) (c : nat), in_bounds n p 0 c -> real_mean_ R_ops n p c = Some (rsum (cells 0 n p 0 c) / INR n)).
+Proof. exact clause_sums. Qed.
+Print Assumptions C11_sums_and_mean.
+Theorem C11_dot : forall (n : nat) (X : list R) (Xc : nat) (Y : list R) (Yc : nat), in_bounds n X 0 Xc -> in_bounds n Y 0 Yc ->
+  real_dot_ R_ops n X Xc Y Yc = Some (rsum (map (fun k => nth (k * Xc) X 0 * nth (k * Yc) Y 0) (seq 0 n))).
+Proof. exact dot_spec. Qed.
+Print Assumptions C11_dot.
+(* out of bounds (undefined in C) is an error of the model; the unit-stride entry points are the strided ones with c = 1 *)
+Theorem C11_reductions_edges :
+  (forall (n : nat) (p : list R) (c : nat), ~ in_bounds n p 0 c ->
+     real_sum_ R_ops n p c = None /\ real_sum1_ R_ops n p c = None /\ real_sum2_ R_ops n p c = None /\ real_mean_ R_ops n p c = None) /\
+  (forall (n : nat) (p : list R),
+     real_sum R_ops n p = real_sum_ R_ops n p 1 /\ real_sum1 R_ops n p = real_sum1_ R_ops n p 1 /\
+     real_sum2 R_ops n p = real_sum2_ R_ops n p 1 /\ real_mean R_ops n p = real_mean_ R_ops n p 1 /\
+     (forall q, real_dot R_ops n p q = real_dot_ R_ops n p 1 q 1)).
+Proof. exact clause_reductions_edges. Qed.
+Print Assumptions C11_reductions_edges.
+
+(* ================================================================ copy / swap / fill / zero / push / roll: ANY cell type T
+   agrees d0 p' len f := length p' = len /\ forall k < len, p'[k] = f k   (this determines p': agrees_unique) *)
+Theorem C11_copy : forall (T : Type) (d0 : T) (n : nat) (m : list T) (d s : nat), (d + n <= length m)%nat -> (s + n <= length m)%nat ->
+  exists m', real_copy n m d s = Some m' /\
+    agrees d0 m' (length m) (fun k => if ((d <=? k) && (k <? d + n))%nat then nth (s + (k - d)) m d0 else nth k m d0).
+Proof. exact @copy_spec. Qed.
+Print Assumptions C11_copy.
+Theorem C11_copy_strided : forall (T : Type) (d0 : T) (n : nat) (m : list T) (d dc s sc : nat),
+  (1 <= dc)%nat -> (n = 0%nat \/ (d + (n - 1) * dc < length m /\ s + (n - 1) * sc < length m)%nat) ->
+  (forall i j, (i < n)%nat -> (j < n)%nat -> (d + i * dc <> s + j * sc)%nat) ->
+  exists m', real_copy_ n m d dc s sc = Some m' /\ length m' = length m /\
+    (forall k, (k < n)%nat -> nth (d + k * dc) m' d0 = nth (s + k * sc) m d0) /\
+    (forall a, (forall k, (k < n)%nat -> a <> (d + k * dc)%nat) -> nth a m' d0 = nth a m d0).
+Proof. exact @copy__spec. Qed.
+Print Assumptions C11_copy_strided.
+Theorem C11_swap_strided : forall (T : Type) (d0 : T) (n : nat) (m : list T) (l lc r rc : nat),
+  (1 <= lc)%nat -> (1 <= rc)%nat -> (n = 0%nat \/ (l + (n - 1) * lc < length m /\ r + (n - 1) * rc < length m)%nat) ->
+  (forall i j, (i < n)%nat -> (j < n)%nat -> (l + i * lc <> r + j * rc)%nat) ->
+  exists m', real_swap_ n m l lc r rc = Some m' /\ length m' = length m /\
+    (forall k, (k < n)%nat -> nth (l + k * lc) m' d0 = nth (r + k * rc) m d0 /\ nth (r + k * rc) m' d0 = nth (l + k * lc) m d0) /\
+    (forall a, (forall k, (k < n)%nat -> a <> (l + k * lc)%nat /\ a <> (r + k * rc)%nat) -> nth a m' d0 = nth a m d0).
+Proof. exact @swap__spec. Qed.
+Print Assumptions C11_swap_strided.
+Theorem C11_swap_unit : forall (T : Type) (n : nat) (m : list T) (l r : nat), real_swap n m l r = real_swap_ n m l 1 r 1.
+Proof. exact @swap_unit. Qed.
+Print Assumptions C11_swap_unit.
+Theorem C11_fill : forall (T : Type) (d0 : T) (n : nat) (p : list T) (v : T), (n <= length p)%nat ->
+  exists p', real_fill n p v = Some p' /\ agrees d0 p' (length p) (fun k => if (k <? n)%nat then v else nth k p d0).
+Proof. exact @fill_spec. Qed.
+Print Assumptions C11_fill.
+Theorem C11_zero : forall (n : nat) (p : list R), (n <= length p)%nat ->
+  exists p', real_zero R_ops n p = Some p' /\ agrees 0 p' (length p) (fun k => if (k <? n)%nat then 0 else nth k p 0).
+Proof. exact zero_spec. Qed.
+Print Assumptions C11_zero.
+Theorem C11_push_fore : forall (T : Type) (d0 : T) (p : list T) (n : nat) (x : T), (n <= length p)%nat ->
+  exists p', real_push_fore p n x = Some p' /\
+    agrees d0 p' (length p) (fun k => if (k <? n)%nat then (if (k =? 0)%nat then x else nth (k - 1) p d0) else nth k p d0).
+Proof. exact @push_fore_spec. Qed.
+Print Assumptions C11_push_fore.
+Theorem C11_push_back : forall (T : Type) (d0 : T) (p : list T) (n : nat) (x : T), (n <= length p)%nat ->
+  exists p', real_push_back p n x = Some p' /\
+    agrees d0 p' (length p) (fun k => if (k <? n)%nat then (if (k =? n - 1)%nat then x else nth (k + 1) p d0) else nth k p d0).
+Proof. exact @push_back_spec. Qed.
+Print Assumptions C11_push_back.
+Theorem C11_roll_fore : forall (T : Type) (d0 : T) (p : list T) (n : nat), (n <= length p)%nat ->
+  exists p', real_roll_fore p n = Some p' /\
+    agrees d0 p' (length p) (fun k => if (k <? n)%nat then (if (k =? n - 1)%nat then nth 0 p d0 else nth (k + 1) p d0) else nth k p d0).
+Proof. exact @roll_fore_spec. Qed.
+Print Assumptions C11_roll_fore.
+Theorem C11_roll_back : forall (T : Type) (d0 : T) (p : list T) (n : nat), (n <= length p)%nat ->
+  exists p', real_roll_back p n = Some p' /\
+    agrees d0 p' (length p) (fun k => if (k <? n)%nat then (if (k =? 0)%nat then nth (n - 1) p d0 else nth (k - 1) p d0) else nth k p d0).
+Proof. exact @roll_back_spec. Qed.
+Print Assumptions C11_roll_back.
+(* block forms: the last min(cache_n, block_n) cache cells enter; the block moves by that many *)
+Theorem C11_push_fore_block : forall (T : Type) (d0 : T) (block : list T) (bn : nat) (cache : list T) (cn : nat),
+  (bn <= length block)%nat -> (cn <= length cache)%nat -> let n := Nat.min cn bn in
+  exists b', real_push_fore_ block bn cache cn = Some b' /\
+    agrees d0 b' (length block) (fun k => if (k <? n)%nat then nth (cn - n + k) cache d0
+                                          else if (k <? bn)%nat then nth (k - n) block d0 else nth k block d0).
+Proof. exact @push_fore__spec. Qed.
+Print Assumptions C11_push_fore_block.
+Theorem C11_push_back_block : forall (T : Type) (d0 : T) (block : list T) (bn : nat) (cache : list T) (cn : nat),
+  (bn <= length block)%nat -> (cn <= length cache)%nat -> let n := Nat.min cn bn in
+  exists b', real_push_back_ block bn cache cn = Some b' /\
+    agrees d0 b' (length block) (fun k => if (k <? bn - n)%nat then nth (k + n) block d0
+                                          else if (k <? bn)%nat then nth (cn - n + (k - (bn - n))) cache d0 else nth k block d0).
+Proof. exact @push_back__spec. Qed.
+Print Assumptions C11_push_back_block.
+(* rotation by shift_n mod block_n of the first block_n cells; an empty block is left alone (fix 8b840f9) *)
+Theorem C11_roll_fore_block : forall (T : Type) (d0 : T) (block : list T) (bn : nat) (shift : list T) (sn : nat),
+  (bn <= length block)%nat -> (bn = 0%nat \/ (sn mod bn <= length shift)%nat) ->
+  exists b' s', real_roll_fore_ block bn shift sn = Some (b', s') /\ length s' = length shift /\
+    agrees d0 b' (length block) (fun k => if (k <? bn)%nat then nth ((k + sn mod bn) mod bn) block d0 else nth k block d0).
+Proof. exact @roll_fore__spec. Qed.
+Print Assumptions C11_roll_fore_block.
+Theorem C11_roll_back_block : forall (T : Type) (d0 : T) (block : list T) (bn : nat) (shift : list T) (sn : nat),
+  (bn <= length block)%nat -> (bn = 0%nat \/ (sn mod bn <= length shift)%nat) ->
+  exists b' s', real_roll_back_ block bn shift sn = Some (b', s') /\ length s' = length shift /\
+    agrees d0 b' (length block) (fun k => if (k <? bn)%nat then nth ((k + (bn - sn mod bn)) mod bn) block d0 else nth k block d0).
+Proof. exact @roll_back__spec. Qed.
+Print Assumptions C11_roll_back_block.
+(* the bounds hypotheses above are necessary: a count beyond the array is an error of the model, not a silent success *)
+Theorem C11_helpers_out_of_bounds : forall (T : Type) (p : list T) (n : nat) (x : T), (length p < n)%nat ->
+  real_fill n p x = None /\ real_push_fore p n x = None /\ real_push_back p n x = None /\
+  real_roll_fore p n = None /\ real_roll_back p n = None.
+Proof. exact @helpers_out_of_bounds. Qed.
+Print Assumptions C11_helpers_out_of_bounds.
